@@ -1,10 +1,13 @@
 use crate::{Ctx, Out};
 
+pub mod c18;
+pub mod c18_impls;
 pub mod c25;
 pub mod c26;
 
 pub fn run(ctx: &Ctx, out: &mut Out) -> bool {
     match ctx.prop.as_str() {
+        "C18" => c18::run(ctx, out),
         "C25" => c25::run(ctx, out),
         "C26" => c26::run(ctx, out),
         _ => return false,
